@@ -175,7 +175,9 @@ func checkC02(c *Ctx) *report.Result {
 	})
 	_ = it
 	r.Rule("L-halt", "HALT decision table and ownership of the halted flag (H-halt, H-own of C05) re-stated: HALT occupies one machine cycle, idles only in the documented cases, and no other instruction puts the CPU to sleep")
-	adopt(r, c.sibling("C05"), map[string]string{"H-halt": "L-halt", "H-own": "L-halt"}, "a HALT that enters the idle state in the halt-bug case occupies an extra machine cycle")
+	adopt(r, c.sibling("C05"), map[string]string{"H-halt": "L-halt", "H-own": "L-halt", "H-idle": "L-halt"}, "a HALT that enters the idle state in the halt-bug case, or an idle CPU that re-runs HALT's step, occupies extra machine cycles")
+	r.Rule("S-step", "the machine-cycle step is called exactly once per machine cycle by the frame loop, unconditionally (rule L2 of C26 re-stated): an instruction's machine cycles are cycles of the whole machine")
+	adopt(r, c.sibling("C26"), map[string]string{"L2": "S-step"}, "a CPU that is not stepped in some machine cycles stretches its instructions - or never leaves HALT - in emulated time")
 	return r
 }
 
@@ -300,6 +302,29 @@ func (c *Ctx) schedulerLemmas(r *report.Result, m *Machine) {
 				}
 			}
 			r.Ob("S1", guarded, "step: early return only when idle", c.pos(ret), "a return that skips the sub-instruction call must be taken only when the fetch routine reports an idle (halted/stopped) CPU")
+		}
+	}
+	// the fetch routine (boundary check + fetch) runs only before the sub-instruction of a machine cycle, never after
+	// it: a boundary check made at the end of the completing instruction's last cycle runs before that cycle's
+	// peripheral steps and misses the requests they raise
+	for _, b := range fn.Blocks {
+		for i, ins := range b.Instrs {
+			call, ok := ins.(*ssa.Call)
+			if !ok {
+				continue
+			}
+			if cal, ok := call.Call.Value.(*ssa.Function); !ok || cal != m.NextFn {
+				continue
+			}
+			after := b != dynBlock && (dynBlock.Dominates(b) || reachableFrom(dynBlock, b))
+			if b == dynBlock {
+				for j, x := range b.Instrs {
+					if x == ssa.Instruction(dyn[0]) && j < i {
+						after = true
+					}
+				}
+			}
+			r.Ob("S1", !after, "step: the fetch routine is called before the sub-instruction, not after it", c.pos(call), "the boundary check and fetch belong to the start of the machine cycle that executes the new instruction's first step")
 		}
 	}
 	// S3 semantic: evaluate the finished predicate
@@ -544,4 +569,23 @@ func (c *Ctx) fetchGate(r *report.Result, m *Machine) {
 	ok := ev.Post != nil && ic && !idle && cyc && cy == 0 && rowStored && reads >= 1 && len(ev.Undecided) == 0
 	r.Ob("S6", ok, "fetch routine with halted and stopped clear, no interrupt due, all other state symbolic", firstPos(c, m.NextFn),
 		fmt.Sprintf("reports idle: %s (documented false); cycle counter afterwards %s (documented 0); row installed on every path: %v; opcode reads: %d; undecided %v", ai.ValueString(ev.Result), ai.ValueString(c.cellInt(ev.Post, cpu, ".currentCycle")), rowStored, reads, ev.Undecided))
+}
+
+// reachableFrom: block b can be reached from a's successors.
+func reachableFrom(a, b *ssa.BasicBlock) bool {
+	seen := map[*ssa.BasicBlock]bool{}
+	work := append([]*ssa.BasicBlock(nil), a.Succs...)
+	for len(work) > 0 {
+		x := work[len(work)-1]
+		work = work[:len(work)-1]
+		if x == b {
+			return true
+		}
+		if seen[x] {
+			continue
+		}
+		seen[x] = true
+		work = append(work, x.Succs...)
+	}
+	return false
 }
